@@ -24,19 +24,21 @@ Notation c_write_handler := FfiServer.c_write_handler.
    the four write functions) to a served unit is answered with one ADU whose PDU is write_pdu of the callback's
    WriteResult, and the unit continues with the application state and database the callback left - whatever it
    answered. *)
-Theorem C18_system_write_frame : forall (A : Type) (W : c_write_handler A) l a (units : list (N * (database * A))) fr u d app fc r,
-  frame_ok l fr -> f_dest fr = DUnit u -> lookup u units = Some (d, app) ->
+Theorem C18_system_write_frame : forall (A : Type) (W : c_write_handler A) l a (units : ucfg (database * A)) fr u h d app fc r,
+  frame_ok l fr -> f_dest fr = DUnit u -> lookup u (u_map units) = Some h -> u_store units h = (d, app) ->
   decode (f_pdu fr) = Valid fc r -> is_write r = true -> fst (authorize a u r) = true ->
   let cb := callback_outcome W app d r in
-  reply_of (handle_frame (ffi_handler W) l a units fr) = Ok (adu l (f_tx fr) u (write_pdu fc r (option_map client_view cb))) /\
-  units_of (handle_frame (ffi_handler W) l a units fr) = update u (state_after d app cb) units.
+  let x := handle_frame (ffi_handler W) l a units fr in
+  reply_of x = Ok (adu l (f_tx fr) u (write_pdu fc r (option_map client_view cb))) /\
+  u_map (units_of x) = u_map units /\ u_store (units_of x) h = state_after d app cb /\
+  forall k, k <> h -> u_store (units_of x) k = u_store units k.
 Proof. exact P.system_write_frame. Qed.
 Print Assumptions C18_system_write_frame.
 
 (* the same reply spelled out over the C enum: success -> echo of the request; a standard exception -> its
    protocol code; Unknown -> the raw code, whatever it is; callback not set -> 01 *)
-Theorem C18_system_write_reply_cases : forall (A : Type) (W : c_write_handler A) l a (units : list (N * (database * A))) fr u d app fc r,
-  frame_ok l fr -> f_dest fr = DUnit u -> lookup u units = Some (d, app) ->
+Theorem C18_system_write_reply_cases : forall (A : Type) (W : c_write_handler A) l a (units : ucfg (database * A)) fr u h d app fc r,
+  frame_ok l fr -> f_dest fr = DUnit u -> lookup u (u_map units) = Some h -> u_store units h = (d, app) ->
   decode (f_pdu fr) = Valid fc r -> is_write r = true -> fst (authorize a u r) = true ->
   reply_of (handle_frame (ffi_handler W) l a units fr) =
     Ok (adu l (f_tx fr) u
@@ -51,45 +53,77 @@ Print Assumptions C18_system_write_reply_cases.
 
 (* A CONNECTION: the k-th frame being such a write: the k-th reply is the answer for what the callback returned
    when run on the state the unit holds at that point, and the next frame finds what the callback left. *)
-Theorem C18_system_write_session : forall (A : Type) (W : c_write_handler A) l a (units : list (N * (database * A))) frames k fr u d app fc r,
+Theorem C18_system_write_session : forall (A : Type) (W : c_write_handler A) l a (units : ucfg (database * A)) frames k fr u h d app fc r,
   Forall (frame_ok l) frames -> nth_error frames k = Some fr ->
-  f_dest fr = DUnit u -> lookup u (units_before (ffi_handler W) l a units frames k) = Some (d, app) ->
+  f_dest fr = DUnit u -> lookup u (u_map (units_before (ffi_handler W) l a units frames k)) = Some h ->
+  u_store (units_before (ffi_handler W) l a units frames k) h = (d, app) ->
   decode (f_pdu fr) = Valid fc r -> is_write r = true -> fst (authorize a u r) = true ->
   let cb := callback_outcome W app d r in
   nth_error (replies_of (session (ffi_handler W) l a units frames)) k
     = Some (adu l (f_tx fr) u (write_pdu fc r (option_map client_view cb))) /\
-  units_before (ffi_handler W) l a units frames (S k) = update u (state_after d app cb) (units_before (ffi_handler W) l a units frames k).
+  u_map (units_before (ffi_handler W) l a units frames (S k)) = u_map (units_before (ffi_handler W) l a units frames k) /\
+  u_store (units_before (ffi_handler W) l a units frames (S k)) h = state_after d app cb /\
+  forall j, j <> h -> u_store (units_before (ffi_handler W) l a units frames (S k)) j = u_store (units_before (ffi_handler W) l a units frames k) j.
 Proof. exact P.system_write_session. Qed.
 Print Assumptions C18_system_write_session.
 
 (* THE SERVER AS A WHOLE, byte level (any stream, any chunking; frames = the reference cut of the stream) *)
-Theorem C18_system_write : forall (A : Type) (W : c_write_handler A) l a (units : list (N * (database * A))) bs chunks fi k fr u d app fc r,
+Theorem C18_system_write : forall (A : Type) (W : c_write_handler A) l a (units : ucfg (database * A)) bs chunks fi k fr u h d app fc r,
   Forall (fun b => b < 256) bs -> List.concat chunks = bs -> Forall (fun c => c <> []) chunks ->
   let frames := P.cut_frames l bs fi in
   nth_error frames k = Some fr ->
-  f_dest fr = DUnit u -> lookup u (units_before (ffi_handler W) l a units frames k) = Some (d, app) ->
+  f_dest fr = DUnit u -> lookup u (u_map (units_before (ffi_handler W) l a units frames k)) = Some h ->
+  u_store (units_before (ffi_handler W) l a units frames k) h = (d, app) ->
   decode (f_pdu fr) = Valid fc r -> is_write r = true -> fst (authorize a u r) = true ->
   let cb := callback_outcome W app d r in
   nth_error (replies_of (fst (SystemServer.server_system (ffi_handler W) l a units chunks fi))) k
     = Some (adu l (f_tx fr) u (write_pdu fc r (option_map client_view cb))) /\
-  units_before (ffi_handler W) l a units frames (S k) = update u (state_after d app cb) (units_before (ffi_handler W) l a units frames k).
+  u_map (units_before (ffi_handler W) l a units frames (S k)) = u_map (units_before (ffi_handler W) l a units frames k) /\
+  u_store (units_before (ffi_handler W) l a units frames (S k)) h = state_after d app cb /\
+  forall j, j <> h -> u_store (units_before (ffi_handler W) l a units frames (S k)) j = u_store (units_before (ffi_handler W) l a units frames k) j.
 Proof. exact P.system_write_stream. Qed.
 Print Assumptions C18_system_write.
 
-(* Broadcast (serial), inherited from C17: never answered; a valid broadcast write runs, in unit id order, every
-   unit's callback exactly once on that unit's own application state and database, which become what it left;
-   every WriteResult is dropped. *)
-Theorem C18_system_broadcast_never_answered : forall (A : Type) (W : c_write_handler A) l a (units : list (N * (database * A))) fr, frame_ok l fr ->
+(* Broadcast (serial), inherited from C17 (C17_broadcast_write + C17_broadcast_once): never answered; on a C-ABI device
+   map (one handler object per unit id, `device_map ids store` with distinct ids) a valid broadcast write runs, in
+   unit id order, every unit's callback exactly once on that unit's own application state and database, which become
+   what it left; every WriteResult is dropped; nothing else changes. (The core's ServerHandlerMap would allow two unit
+   ids to share one handler object - C17_broadcast_shared_twice - the C ABI cannot build such a map.) *)
+Theorem C18_system_broadcast_never_answered : forall (A : Type) (W : c_write_handler A) l a (units : ucfg (database * A)) fr, frame_ok l fr ->
   f_dest fr = DBroadcast -> reply_of (handle_frame (ffi_handler W) l a units fr) = Ok [].
 Proof. exact P.ffi_broadcast_never_answered. Qed.
 Print Assumptions C18_system_broadcast_never_answered.
 
-Theorem C18_system_broadcast_write : forall (A : Type) (W : c_write_handler A) l (units : list (N * (database * A))) fr fc r, frame_ok l fr ->
-  f_dest fr = DBroadcast -> decode (f_pdu fr) = Valid fc r -> is_write r = true ->
-  let x := handle_frame (ffi_handler W) l NoAuth units fr in
+Theorem C18_system_broadcast_write : forall (A : Type) (W : c_write_handler A) l ids (store : N -> database * A) fr fc r, frame_ok l fr ->
+  NoDup ids -> f_dest fr = DBroadcast -> decode (f_pdu fr) = Valid fc r -> is_write r = true ->
+  let x := handle_frame (ffi_handler W) l NoAuth (device_map ids store) fr in
   reply_of x = Ok [] /\
-  log_of x = flat_map (fun us => write_call (fst us) r) units /\
-  units_of x = map (fun us : N * (database * A) =>
-                      let '(u, (d, app)) := us in (u, state_after d app (callback_outcome W app d r))) units.
+  log_of x = flat_map (fun u => write_call u r) ids /\
+  u_map (units_of x) = map (fun u => (u, u)) ids /\
+  forall h d app, store h = (d, app) ->
+    u_store (units_of x) h = if in_dec N.eq_dec h ids then state_after d app (callback_outcome W app d r) else (d, app).
 Proof. exact P.ffi_broadcast_write. Qed.
 Print Assumptions C18_system_broadcast_write.
+
+(* The session's command channel, inherited from Properties/C01_Commands.v for the C-ABI handler: decode-level
+   changes (rodbus_server_set_decode_level) at any positions change no reply byte, no callback invocation and no
+   database; Shutdown / a closed command channel (rodbus_server_destroy) end the session; a write whose reply is
+   still being written when the session is told to end HAS run its callback (the database and application state are
+   those the callback left) although the client never sees the reply. *)
+From Rodbus Require Import Base.ServerRun Model.ServerRun Proofs.ServerRunProofs.
+
+Theorem C18_system_commands_unobservable : forall (A : Type) (W : c_write_handler A) l a (units : ucfg (database * A)) d d' evs,
+  observable (session_run (ffi_handler W) l a units d evs) = observable (session_run (ffi_handler W) l a units d' (strip evs)).
+Proof. exact (fun A W => @session_unobservable _ (ffi_handler W)). Qed.
+Print Assumptions C18_system_commands_unobservable.
+
+Theorem C18_system_shutdown_ends : forall (A : Type) (W : c_write_handler A) l a (units : ucfg (database * A)) d pre ev post, ends ev ->
+  session_run (ffi_handler W) l a units d (pre ++ ev :: post) = close (session_run (ffi_handler W) l a units d pre).
+Proof. exact (fun A W => @session_shutdown_ends _ (ffi_handler W)). Qed.
+Print Assumptions C18_system_shutdown_ends.
+
+Theorem C18_system_write_cut : forall (A : Type) (W : c_write_handler A) l a (units : ucfg (database * A)) d f b bs units' lg levels ev post,
+  handle_frame (ffi_handler W) l a units f = (Ok (b :: bs), units', lg) -> ends ev ->
+  session_run (ffi_handler W) l a units d (EFrame f :: changes levels ++ ev :: post) = ([], units', lg, last levels d, RShutdown).
+Proof. exact (fun A W => @session_write_cut _ (ffi_handler W)). Qed.
+Print Assumptions C18_system_write_cut.
